@@ -325,6 +325,124 @@ fn do_converters() -> J {
 // The evaluation context is built on first use (inside the panic capture of the
 // request that needs it): Environment::new parses the standard library and panics
 // if that fails, which must be data of an eval/build request, not a dead harness.
+/// C04: one text through every stage, each under its own panic capture.  The
+/// answer names, per stage, "ok", "err" (a diagnostic) or "panic: <msg>"; the
+/// first panic ends the pipeline (the process is restarted by the caller).
+fn do_pipeline(req: &J, shared: &Ctx) -> J {
+    let src = req["src"].as_str().unwrap_or("").to_string();
+    let path = req.get("path").and_then(|p| p.as_str()).map(|s| s.to_string());
+    let mut stages = serde_json::Map::new();
+    let mut vals: Vec<Rc<ucglib::build::Val>> = Vec::new();
+    macro_rules! stage {
+        ($name:expr, $body:expr) => {{
+            match catch_unwind(AssertUnwindSafe(|| $body)) {
+                Ok(v) => {
+                    stages.insert($name.to_string(), v);
+                }
+                Err(p) => {
+                    stages.insert($name.to_string(), json!(format!("panic: {}", panic_msg(&p))));
+                    return json!({"stages": stages, "crash_stage": $name, "restart": true});
+                }
+            }
+        }};
+    }
+    stage!("tokens", {
+        let mut cm: CommentMap = BTreeMap::new();
+        match tokenize(OffsetStrIter::new(&src), Some(&mut cm)) {
+            Ok(_) => json!("ok"),
+            Err(e) => json!(if format!("{}", e).is_empty() { "err-empty" } else { "err" }),
+        }
+    });
+    let mut parsed = false;
+    stage!("parse", {
+        match parse(OffsetStrIter::new(&src), None) {
+            Ok(_) => {
+                parsed = true;
+                json!("ok")
+            }
+            Err(e) => json!(if format!("{}", e).is_empty() { "err-empty" } else { "err" }),
+        }
+    });
+    if parsed {
+        stage!("fmt", {
+            let r = do_fmt(&json!({"src": src}));
+            if r["ok"].as_bool().unwrap_or(false) {
+                // formatting the formatted text must not crash either
+                let t = r["text"].as_str().unwrap_or("").to_string();
+                let _ = do_fmt(&json!({"src": t}));
+                json!("ok")
+            } else {
+                json!("err")
+            }
+        });
+        stage!("translate", {
+            let r = do_ops(&json!({"src": src}));
+            json!(if r["ok"].as_bool().unwrap_or(false) { "ok" } else { "err" })
+        });
+    }
+    for (name, strict) in [("eval-strict", true), ("eval-nostrict", false)] {
+        stage!(name, {
+            shared.reset(BTreeMap::new());
+            let mut b = FileBuilder::new(PathBuf::from("/"), &shared.import_paths, &shared.env);
+            b.set_strict(strict);
+            b.enable_validate_mode();
+            match b.eval_string(&src) {
+                Ok(v) => {
+                    if strict {
+                        vals.push(v);
+                    }
+                    json!("ok")
+                }
+                Err(e) => json!(if format!("{}", e).trim().is_empty() { "err-empty" } else { "err" }),
+            }
+        });
+    }
+    if let Some(v) = vals.first() {
+        // every converter on the whole result and on each bound value
+        let mut targets: Vec<Rc<ucglib::build::Val>> = vec![v.clone()];
+        if let ucglib::build::Val::Tuple(fs) = v.as_ref() {
+            for (_, x) in fs.iter() {
+                targets.push(x.clone());
+            }
+        }
+        let reg = ConverterRegistry::make_registry();
+        let mut names: Vec<String> = reg.get_converter_list().iter().map(|(k, _)| k.to_string()).collect();
+        names.sort();
+        for name in names {
+            let label = format!("convert-{}", name);
+            stage!(label.as_str(), {
+                let c = reg.get_converter(&name).unwrap();
+                let mut n_ok = 0;
+                for t in targets.iter() {
+                    let mut buf: Vec<u8> = Vec::new();
+                    if c.convert(t.clone(), &mut buf).is_ok() {
+                        n_ok += 1;
+                    }
+                }
+                json!(format!("ok:{}", n_ok))
+            });
+        }
+    }
+    if let Some(p) = path {
+        stage!("build-file", {
+            if std::fs::write(&p, &src).is_err() {
+                json!("skipped")
+            } else {
+                shared.reset(BTreeMap::new());
+                let mut b = FileBuilder::new(PathBuf::from("/"), &shared.import_paths, &shared.env);
+                b.set_strict(true);
+                let r = b.build(PathBuf::from(&p));
+                let _ = std::fs::remove_file(&p);
+                match r {
+                    Ok(()) => json!("ok"),
+                    Err(e) => json!(if format!("{}", e).trim().is_empty() { "err-empty" } else { "err" }),
+                }
+            }
+        });
+    }
+    json!({"stages": stages})
+}
+
 type Shared = std::cell::OnceCell<Ctx>;
 
 fn handle(req: &J, shared: &Shared) -> J {
@@ -339,6 +457,7 @@ fn handle(req: &J, shared: &Shared) -> J {
         "convert" => do_convert(req),
         "import" => do_import(req),
         "converters" => do_converters(),
+        "pipeline" => do_pipeline(req, shared.get_or_init(Ctx::new)),
         "batch" => {
             // every sub-request under its own panic capture; a crashed item is data
             let mut out = Vec::new();
